@@ -579,6 +579,8 @@ def prebuild(ctx):
     ctx.coq_build_cached(AFF_FILES[1:], deps=_fix_deps() + FIX_FILES[:2] + ELIM_FILES[:2] + AFF_FILES[:1], timeout=900)
     ctx.coq_build_cached(FMP_FILES, timeout=600)
     ctx.coq_build_cached(SS_FILES, timeout=600)
+    from vlib import c14_dret
+    c14_dret.prebuild(ctx)
     from vlib import c14_pass, c14a_part, c14d_part, c14g_part, c14l_part
     c14a_part.prebuild(ctx)
     c14d_part.prebuild(ctx)
@@ -1070,6 +1072,7 @@ def part_fixpoint(ctx):
 
 def run(ctx):
     import time
+    from vlib import c14_dret
     from vlib import (c14_fixvenom, c14_isel, c14_pass, c14_sccp, c14a_part, c14c_part, c14d_part, c14g_part, c14l_part,
                       c14i_part, c14m_part, c14mm_part, c14s_part)
     total = 0
@@ -1080,6 +1083,7 @@ def run(ctx):
         [("wordtie", wordtie.run)],
         [("eval kernel", part_eval_kernel)],
         [("range", part_range), ("range clients", part_clients), ("memloc", part_memloc), ("fixpoint validator", part_fixpoint)],
+        [("fmp lowering validator", part_fmp), ("dret desugar / fmp prune validators", c14_dret.part_dret)],
     ])
     ctx.log(f"phase A {time.time()-t:.0f}s"); t = time.time()
     # phase B: per-pass parts (independent directories; they only read what phase A / setup built)
